@@ -36,15 +36,24 @@ func (f *FileEnt) decref() int {
 	f.Lock()
 	f.nref--
 	n := f.nref
-	f.Unlock()
-
-	if n == 0 && f.children != nil { // trigger child deletion
-		for _, c := range(f.children) {
-			c.decref()
-		}
+	var children map[string]*FileEnt
+	if n == 0 { // detach the children under the lock
+		children = f.children
 		f.children = nil
 	}
+	f.Unlock()
+
+	for _, c := range children { // trigger child deletion
+		c.decref()
+	}
 	return n
+}
+
+// Copy of the entry's metadata, taken under its lock.
+func (f *FileEnt) info() p9p.Dir {
+	f.Lock()
+	defer f.Unlock()
+	return f.Info
 }
 
 // c.incref() should already have been called, so there
@@ -71,12 +80,12 @@ func (f *FileEnt) link_child(name string, c *FileEnt) error {
 // Caller is responsible for calling c.decref *after* this
 // routine returns successfully (error == nil).
 func (f *FileEnt) unlink_child(name string, c *FileEnt) error {
+	f.Lock()
+	defer f.Unlock()
+
 	if f.children == nil {
 		return errors.New("not a directory.")
 	}
-
-	f.Lock()
-	defer f.Unlock()
 	cur, found := f.children[name]
 	if !found || cur != c {
 		return errors.New("not found")
